@@ -78,6 +78,36 @@ def values(rng, n=None, family=None, nmax=9, allow_zero=True, vmax=None):
     return v, family
 
 
+def layered(rng, k=None):
+    """values in LAYERS of k items each (layer j = base_j + the same offsets) plus one small extra: the shape on which the complete
+    Karmarkar-Karp search combines two non-singleton partial partitions with tied sums.  Before repair D11 the contents-keeping and
+    the sums-only manager explored different trees exactly there: for 4 bins the offsets (0, g, 2g, 2g+h) with 0 < h < g and the
+    extra item 2g (e.g. [4,5,7,9,10,10,12,14,15]); for 5 bins three offset pairs found by search.  Returns (k, values)."""
+    r = rng.random()
+    if k == 4 or (k is None and r < 0.6):
+        g = rng.randint(2, 5)
+        h = rng.randint(1, g - 1)
+        offs = [0, g, 2 * g, 2 * g + h]
+        b2 = rng.randint(3, 12)
+        b1 = b2 + rng.randint(4, 14)
+        vals = [b1 + o for o in offs] + [b2 + o for o in offs] + [2 * g]
+        k = 4
+    elif k == 5 or (k is None and r < 0.8):
+        a, b, e = rng.choice([([1, 2, 3, 4, 5], [2, 3, 5, 5, 6], 3), ([2, 4, 5, 6, 6], [1, 2, 3, 4, 5], 3), ([1, 4, 5, 6, 6], [1, 2, 4, 5, 6], 4)])
+        b2 = rng.randint(3, 8)
+        b1 = b2 + rng.randint(4, 11)
+        vals = [b1 + x for x in a] + [b2 + x for x in b] + [e]
+        k = 5
+    else:
+        k = k or rng.choice([3, 4, 5])
+        offs = sorted(rng.randint(0, 7) for _ in range(k))
+        b2 = rng.randint(3, 9)
+        b1 = b2 + rng.randint(4, 12)
+        vals = [b1 + o for o in offs] + [b2 + o + rng.choice([0, 0, 1]) for o in offs] + [rng.randint(1, 8) for _ in range(rng.choice([0, 1, 1]))]
+    rng.shuffle(vals)
+    return k, vals
+
+
 def small_lists(alphabet, maxlen, minlen=1):
     for n in range(minlen, maxlen + 1):
         for t in itertools.product(alphabet, repeat=n):
